@@ -26,7 +26,11 @@ API
     event_matcher_names(src) / command_matcher_names(src) -> [grammar name] in registration order (index = MatcherTag::Matcher(i))
     registrations(src, 'event'|'command') -> [Registration(index, name, impl, mapped, text)]
     union_rx(src, which) -> Rx of the whole automaton as evaluated from MatcherAutomata::new
-    fold_predicate(closure_node) -> 256-bit class;  Unfoldable is raised (naming the construct) for anything outside the subset.
+    fold_predicate(src, closure_node) -> 256-bit class of a `|b| <bool expr>` closure node of src.json
+    matcher_impl_count(src), extraction_problems(src) -> bookkeeping used by C15
+    Unfoldable is raised (naming the construct) for anything outside the evaluated subset; extract() records it in Grammar.problem instead.
+    Typical use in another rule:   g = grammar.extract(ctx.src)["MouseEventMatcher"];  g.minlen, g.prefix, g.suffix;
+                                   regex.intersect_witness(g.asbuilt_dfa, other.asbuilt_dfa);  regex.run_parity_witness(g.asbuilt_dfa, hexclass)
 """
 import re
 from collections import namedtuple
